@@ -209,6 +209,7 @@ type Submission struct {
 	gotEntry *sunlight.LogEntry
 	sctRsp *ct.AddChainResponse
 	cacheEpoch int
+	retryAfter   string
 	expectAccept bool
 	rootTrusted  bool
 	faultedPlan  bool
@@ -346,6 +347,7 @@ func (w *World) submitHTTP(in *Instance, it *Item, plan []int) *Submission {
 		s.DoneTime = time.Now()
 		s.Code = rec.Code
 		s.SCT = rec.Body.Bytes()
+		s.retryAfter = rec.Header().Get("Retry-After")
 		if rec.Code != 200 {
 			s.Err = fmt.Errorf("http %d: %s", rec.Code, clip(rec.Body.String()))
 			w.note("ack sub %d http=%d", s.ID, rec.Code)
